@@ -239,6 +239,54 @@ func (g *gen) idleCase() Case {
 	return c
 }
 
+// churnCase: ONCE / POLL walks (mostly on "*") overlapped by target-level
+// writers: a spare target is removed and added again in a loop (Cache.Remove /
+// Cache.Add take the cache's write lock) for as long as the walk runs, next to
+// leaf writers.  Judged by the weak clause; a walk that never finishes is a
+// Hang observation.
+func (g *gen) churnCase() Case {
+	r := g.r
+	targets := []string{"t1", "t2", "sp"}
+	c := Case{Targets: targets}
+	ninit := 3 + r.Intn(6)
+	for i := 0; i < ninit; i++ {
+		c.Ops = append(c.Ops, g.cacheStep(targets, false, false))
+	}
+	mode := 1 + r.Intn(2)
+	c.Req = g.request(targets[:2], mode)
+	c.Req.HasSub = true
+	if c.Req.Prefix == nil || r.Chance(4, 5) {
+		pf := GPath{Target: "*"}
+		if c.Req.Prefix != nil {
+			pf.Origin, pf.Elems = c.Req.Prefix.Origin, c.Req.Prefix.Elems
+		}
+		c.Req.Prefix = &pf
+	}
+	round := func(first string) {
+		c.Ops = append(c.Ops, Step{K: first, Burst: 1})
+		k := r.Intn(3)
+		for i := 0; i < k; i++ {
+			c.Ops = append(c.Ops, g.burstWrite(targets[:2], 1))
+		}
+		c.Ops = append(c.Ops, Step{K: "churn", Target: "sp", Burst: 2})
+	}
+	round("sub")
+	if mode == 2 {
+		np := r.Intn(3)
+		for p := 0; p < np; p++ {
+			if r.Chance(1, 2) {
+				c.Ops = append(c.Ops, g.cacheStep(targets, false, false))
+			}
+			if r.Chance(2, 3) {
+				round("poll")
+			} else {
+				c.Ops = append(c.Ops, Step{K: "poll"})
+			}
+		}
+	}
+	return c
+}
+
 func familyOf(base string, c Case) string {
 	for _, o := range c.Ops {
 		if o.Burst != 0 {
@@ -265,7 +313,7 @@ func nontrivial(c *Case) bool {
 func main() {
 	o := vh.ParseFlags()
 	quietLogs()
-	meta := vh.NewMeta("corpus cases; grid: one fixed two-target cache (origins, keyed element, atomic container), every ONCE query path over {a,b,*} of length 0..3 x origin placement {none, prefix oc, path oc, prefix foo, first element in the prefix} x target {t1,*}; random: 1-3 targets, 2-10 initial notifications (single/multi update, atomic, delete, keyed elements, origins in prefix or path), one request (ONCE/POLL/few STREAM; 1-3 subscription paths of length 0..3 with globs at any position, origins in prefix/path incl. conflicts, missing path/prefix/target, unknown target, updates_only), POLL: 0-3 triggers with 0-2 cache edits (updates, deletes, target removal) before each; in 1/6 of the ONCE/POLL cases the walk is overlapped by 2-6 concurrent single-update/delete writes (one writer goroutine per target), judged by the weak clause; idle-timeout: 22 (thorough 160) POLL/STREAM scripts on a server with WithTimeout(100ms) in which the client idles 320 ms after a received sync before the next trigger / update / EOF. distinct = distinct inputs; non-trivial = the RPC ended OK and at least one update was delivered")
+	meta := vh.NewMeta("corpus cases; grid: one fixed two-target cache (origins, keyed element, atomic container), every ONCE query path over {a,b,*} of length 0..3 x origin placement {none, prefix oc, path oc, prefix foo, first element in the prefix} x target {t1,*}; random: 1-3 targets, 2-10 initial notifications (single/multi update, atomic, delete, keyed elements, origins in prefix or path), one request (ONCE/POLL/few STREAM; 1-3 subscription paths of length 0..3 with globs at any position, origins in prefix/path incl. conflicts, missing path/prefix/target, unknown target, updates_only), POLL: 0-3 triggers with 0-2 cache edits (updates, deletes, target removal) before each; in 1/6 of the ONCE/POLL cases the walk is overlapped by 2-6 concurrent single-update/delete writes (one writer goroutine per target), judged by the weak clause; 1/3 of the POLL and 1/6 of the ONCE cases yield ~40us at the queue's insert schedule point (between Insert's checks and the locked insert) so that the sender can drain and park in between; idle-timeout: 22 (thorough 160) POLL/STREAM scripts on a server with WithTimeout(100ms) in which the client idles 320 ms after a received sync before the next trigger / update / EOF; target-churn: 120 (thorough 1500) ONCE/POLL scripts, 80% on target *, whose walks (initial and poll rounds) are overlapped by a loop of Cache.Remove/Cache.Add of a spare target plus 0-2 leaf writes. distinct = distinct inputs; non-trivial = the RPC ended OK and at least one update was delivered")
 	e := &emitter{dir: o.Out, cf: newCaseFile(), meta: meta, limit: 255, require: "Subscribe.C05Check", nontriv: nontrivial}
 
 	if o.Replay != "" {
@@ -306,7 +354,7 @@ func main() {
 	meta.Extra["grid_cases"] = ng
 
 	r := vh.NewRand(o.Seed)
-	nrand := 2400
+	nrand := 2300
 	if o.Thorough() {
 		nrand = 40000
 	}
@@ -315,9 +363,11 @@ func main() {
 		switch g.r.Pick(42, 52, 6) {
 		case 0:
 			c := g.randomCase(1, o.Thorough())
+			c.Perturb = g.r.Chance(1, 6)
 			e.add(familyOf("random-once", c), c)
 		case 1:
 			c := g.randomCase(2, o.Thorough())
+			c.Perturb = g.r.Chance(1, 3)
 			e.add(familyOf("random-poll", c), c)
 		default:
 			m := 0
@@ -335,6 +385,13 @@ func main() {
 		e.add("idle-timeout", newGen(r.Fork()).idleCase())
 	}
 	meta.Extra["idle_timeout_cases"] = nidle
+	nchurn := 120
+	if o.Thorough() {
+		nchurn = 1500
+	}
+	for i := 0; i < nchurn; i++ {
+		e.add("target-churn", newGen(r.Fork()).churnCase())
+	}
 	e.flush()
 	if meta.Samples == nil {
 		meta.Samples = []interface{}{}
